@@ -71,7 +71,7 @@ pub fn field_names(targets: &[ObjectId]) -> Vec<String> {
     let mut v: Vec<String> = vec!["cat".into(), "enc".into(), "cf".into(), "iter".into(), "pages".into()];
     for t in targets {
         let t = format!("{}_{}", t.0, t.1);
-        for q in ["go", "gom", "gd", "pc", "pcc", "pr", "pf", "pa", "pi", "op", "fe", "nd"] { v.push(format!("{}:{}", q, t)); }
+        for q in ["go", "gom", "gd", "pc", "pcc", "pr", "pf", "pa", "pi", "op", "fe", "nd", "ol"] { v.push(format!("{}:{}", q, t)); }
     }
     v.push("outl".into()); v.push("toc".into()); v.push("dests".into()); v.push("text".into()); v.push("xt".into());
     v
@@ -144,6 +144,15 @@ pub fn eval_field(doc: &mut Document, field: &str) -> String {
             let mut named = IndexMap::new();
             e(doc.get_named_destinations(d, &mut named))?;
             Ok(named_digest(&named))
+        }),
+        // get_outline on the dictionary with this id (no named destinations loaded)
+        "ol" => run_field(|| {
+            let d = e(doc.get_dictionary(t))?;
+            let mut named = IndexMap::new();
+            let o = e(doc.get_outline(d, &mut named))?;
+            let mut s = String::new();
+            match o { Some(x) => outline_digest(&x, &mut s), None => s.push_str("none") }
+            Ok(s)
         }),
         "dests" => run_field(|| {
             // the tree `get_outlines` would use
@@ -699,7 +708,7 @@ fn run_chunk(c: &mut Ctx, batch: Vec<Pending>, docs: &[Document]) {
             let qname = match q { "outl" => "get_outlines", "toc" => "get_toc", "dests" | "nd" => "get_named_destinations", "pages" => "get_pages", "iter" => "page_iter.collect",
                 "op" => "get_object_page", "text" | "xt" => "extract_text", "pi" => "get_page_images", "go" => "get_object", "gom" => "get_object_mut", "gd" => "get_dictionary",
                 "pc" => "get_page_contents", "pcc" => "get_page_content", "pr" => "get_page_resources", "pf" => "get_page_fonts", "pa" => "get_page_annotations",
-                "fe" => "get_font_encoding", "cat" => "catalog", "enc" => "get_encrypted", "cf" => "get_crypt_filters", "all" => "some-query", x => x };
+                "fe" => "get_font_encoding", "ol" => "get_outline", "cat" => "catalog", "enc" => "get_encrypted", "cf" => "get_crypt_filters", "all" => "some-query", x => x };
             // a query that does not come back (timeout in the isolated worker) or kills the process is ALWAYS an oracle failure
             let sig = if let Some(site) = v.strip_prefix("panic@") {
                 if site.starts_with("src/") { format!("panic@{}:{}", site, site_text(site)) } else { format!("panic@{}", site) }
@@ -727,7 +736,7 @@ pub fn run(c: &mut Ctx) {
     c.rule = "documents = well-formed generator output (page tree, Contents direct/array/chained, Resources direct/by reference/inherited, \
 fonts with every Encoding branch, image XObjects, Annots, outlines with Dest/A/named destinations, name trees, Encrypt/CF) with 0-12 typed-chaos \
 mutations (a key the queries read re-bound to a value of a random kind or to a reference, possibly forming cycles); every query runs on the real \
-Document in the isolated worker on 3-5 target ids; non-trivial = every case (distinct by request text); every walker runs on every document (cyclic Next / First / Kids included: seen-sets); stream `refchains`: for each of 34 keys a query looks up x 24 chain shapes (acyclic 1..5 and 126..129 hops, dangling, self loop, ring 2..4, rho-shape tail 1..5 + ring 1..4, chains ending in an array / name / array of references) the value of the key — or an item of its array — is put behind a chain of bare reference objects; a query that does not return in the isolated worker is an oracle failure hang:<query> / abort:<query> with the document as replay; stream `systematic`: every key x every value kind (null, bool, int, real, name, string, array, dictionary, stream, reference) x {trailer, a dictionary that has the key, any dictionary} once per run; stream `count_outline`: /Count specials (0, -1, 2^31, 2^40, 2^60, 2^62, i64::MAX, i64::MIN, the 12-byte capacity boundary, real, name, null, string, array) on the root and / or a non-root /Pages node (directly or behind a reference) of documents with a readable table of contents and a name tree, every query run".into();
+Document in the isolated worker on 3-5 target ids; non-trivial = every case (distinct by request text); every walker runs on every document (cyclic Next / First / Kids included: seen-sets); stream `refchains`: for each of 34 keys a query looks up x 24 chain shapes (acyclic 1..5 and 126..129 hops, dangling, self loop, ring 2..4, rho-shape tail 1..5 + ring 1..4, chains ending in an array / name / array of references) the value of the key — or an item of its array — is put behind a chain of bare reference objects; a query that does not return in the isolated worker is an oracle failure hang:<query> / abort:<query> with the document as replay; stream `systematic`: every key x every value kind (null, bool, int, real, name, string, array, dictionary, stream, reference) x {trailer, a dictionary that has the key, any dictionary} once per run; stream `count_outline`: /Count specials (0, -1, 2^31, 2^40, 2^60, 2^62, i64::MAX, i64::MIN, the 12-byte capacity boundary, real, name, null, string, array) on the root and / or a non-root /Pages node (directly or behind a reference) of documents with a readable table of contents and a name tree, every query run; stream `actions`: the /A of an outline item (direct, referenced, behind bare references) with /S in {GoTo, GoToR, URI, Launch, Named, JavaScript, unknown, missing, ill-typed} x /Next in {absent, inline dictionaries, reference, chain, ARRAY of actions, empty array, self loop, rho-shape, ring, dangling, ill-typed, bare-reference chain / ring, long chain}; get_outline itself is a compared query (`ol`)".into();
     let _ = guard(|| ());
     // ---------------- well-formed documents
     let mut batch = vec![]; let mut docs = vec![];
@@ -787,6 +796,7 @@ Document in the isolated worker on 3-5 target ids; non-trivial = every case (dis
     refchain_stream(c);
     systematic_stream(c);
     count_outline_stream(c);
+    actions_stream(c);
     known_streams(c);
 }
 
@@ -963,6 +973,81 @@ fn count_outline_stream(c: &mut Ctx) {
         c.nontrivial(&req); c.count(&format!("count_outline.place{}", place));
         if i < 1 { c.sample(json!({"stream": "count_outline", "count": show_obj(&special), "place": place, "request": if req.len() < 600 { req.clone() } else { format!("{}…", &req[..600]) }})); }
         batch.push(Pending { case_id: c.cur, stream: "count_outline".into(), req, doc_targets: targets, hazard: hz }); docs.push(doc);
+    }
+    run_batch(c, batch, &docs);
+}
+
+
+/// action dictionaries in outline items: /S of every kind x /Next of every shape (ISO 32000-1 12.6.2 allows a dictionary or an
+/// ARRAY of actions): inline, referenced, arrays, chains, self loops, rings, rho-shapes, dangling, ill-typed — with /A direct,
+/// referenced or behind a chain of bare references
+fn actions_stream(c: &mut Ctx) {
+    const S_KINDS: [&str; 9] = ["GoTo", "GoToR", "URI", "Launch", "Named", "JavaScript", "Foo", "-missing", "-int"];
+    const N_SHAPES: u64 = 14;
+    let mut batch = vec![]; let mut docs = vec![];
+    let combos = S_KINDS.len() as u64 * N_SHAPES;
+    for i in 0..c.n(combos, combos * 6) {
+        let Some(mut r) = c.case("actions", i) else { continue };
+        let s_kind = S_KINDS[(i as usize) % S_KINDS.len()];
+        let shape = (i / S_KINDS.len() as u64) % N_SHAPES;
+        let placement = (i / combos + i) % 3;            // /A: 0 direct, 1 reference, 2 behind two bare references
+        // a well-formed document with an outline
+        let mut found = None;
+        for _ in 0..40 {
+            let (doc, leaves) = gen_valid(&mut r);
+            let items: Vec<ObjectId> = doc.objects.iter().filter(|(_, o)| matches!(o, Object::Dictionary(d) if d.has(b"Title") && d.has(b"Parent"))).map(|(id, _)| *id).collect();
+            if !items.is_empty() && !leaves.is_empty() { found = Some((doc, leaves, items)); break; }
+        }
+        let Some((mut doc, leaves, items)) = found else { c.count("actions.no_outline_doc"); continue };
+        let item = *r.pick(&items);
+        let mut next_id = doc.objects.keys().map(|k| k.0).max().unwrap_or(0) + 1;
+        let mut fresh = |doc: &mut Document, o: Object| -> ObjectId { let id = (next_id, 0); next_id += 1; doc.objects.insert(id, o); id };
+        let page = leaves[0];
+        let act = |s: &str, next: Option<Object>| -> Dictionary {
+            let mut d = Dictionary::new();
+            match s { "-missing" => {}, "-int" => { d.set("S", Object::Integer(1)); }, k => { d.set("S", name(k)); } }
+            d.set("D", Object::Array(vec![rf(page), name("Fit")]));
+            if s == "URI" { d.set("URI", lit(b"http://x")); }
+            if let Some(n) = next { d.set("Next", n); }
+            d
+        };
+        let goto = |next: Option<Object>| act("GoTo", next);
+        // the head action, by shape of its /Next
+        let mut head_is_obj: Option<ObjectId> = None;
+        let head: Dictionary = match shape {
+            0 => act(s_kind, None),
+            1 => act(s_kind, Some(Object::Dictionary(act("Named", Some(Object::Dictionary(goto(None))))))),
+            2 => { let g = fresh(&mut doc, Object::Dictionary(goto(None))); act(s_kind, Some(rf(g))) }
+            3 => { let g = fresh(&mut doc, Object::Dictionary(goto(None))); let u = fresh(&mut doc, Object::Dictionary(act("URI", Some(rf(g))))); act(s_kind, Some(rf(u))) }
+            4 => { let u = fresh(&mut doc, Object::Dictionary(act("URI", None))); act(s_kind, Some(Object::Array(vec![rf(u), Object::Dictionary(goto(None))]))) }
+            5 => act(s_kind, Some(Object::Array(vec![]))),
+            6 => { let x = fresh(&mut doc, Object::Null); doc.objects.insert(x, Object::Dictionary(act(s_kind, Some(rf(x))))); head_is_obj = Some(x); act(s_kind, Some(rf(x))) }
+            7 => { let y = fresh(&mut doc, Object::Null); doc.objects.insert(y, Object::Dictionary(act("URI", Some(rf(y))))); act(s_kind, Some(rf(y))) }
+            8 => { let y = fresh(&mut doc, Object::Null); let z = fresh(&mut doc, Object::Dictionary(act("Launch", Some(rf(y))))); doc.objects.insert(y, Object::Dictionary(act("Named", Some(rf(z))))); act(s_kind, Some(rf(y))) }
+            9 => act(s_kind, Some(rf((9990, 0)))),
+            10 => act(s_kind, Some(if r.chance(1, 2) { Object::Integer(3) } else { name("GoTo") })),
+            11 => { let g = fresh(&mut doc, Object::Dictionary(goto(None))); let r2 = fresh(&mut doc, rf(g)); let r1 = fresh(&mut doc, rf(r2)); act(s_kind, Some(rf(r1))) }
+            12 => { let r1 = fresh(&mut doc, Object::Null); let r2 = fresh(&mut doc, rf(r1)); doc.objects.insert(r1, rf(r2)); act(s_kind, Some(rf(r1))) }
+            _ => { // a long chain of non-go-to actions ending in a GoTo
+                let mut cur = fresh(&mut doc, Object::Dictionary(goto(None)));
+                for k in 0..(3 + r.usize(40)) { cur = fresh(&mut doc, Object::Dictionary(act(*r.pick(&["URI", "Named", "Launch"]), Some(if k % 2 == 0 { rf(cur) } else { rf(cur) })))); }
+                act(s_kind, Some(rf(cur))) }
+        };
+        let a_value = match (placement, head_is_obj) {
+            (_, Some(x)) => rf(x),
+            (0, _) => Object::Dictionary(head),
+            (1, _) => rf(fresh(&mut doc, Object::Dictionary(head))),
+            _ => { let h = fresh(&mut doc, Object::Dictionary(head)); let r2 = fresh(&mut doc, rf(h)); rf(fresh(&mut doc, rf(r2))) }
+        };
+        if let Some(Object::Dictionary(d)) = doc.objects.get_mut(&item) { d.set("A", a_value); if r.chance(1, 2) { d.remove(b"Dest"); } }
+        if i >= combos && r.chance(1, 3) { let n = 1 + r.usize(2); chaos(&mut r, &mut doc, n, c); }
+        let mut targets = pick_targets(&mut r, &doc, &leaves);
+        targets.insert(0, item); targets.truncate(5); targets.dedup();
+        let hz = analyse(&doc, &targets);
+        let req = request("all", &targets, &doc);
+        c.nontrivial(&req); c.count(&format!("actions.shape{}", shape)); c.count(&format!("actions.S.{}", s_kind));
+        if i < 1 { c.sample(json!({"stream": "actions", "S": s_kind, "next_shape": shape, "request": if req.len() < 600 { req.clone() } else { format!("{}…", &req[..600]) }})); }
+        batch.push(Pending { case_id: c.cur, stream: "actions".into(), req, doc_targets: targets, hazard: hz }); docs.push(doc);
     }
     run_batch(c, batch, &docs);
 }
